@@ -7,7 +7,9 @@ import (
 	"encoding/json"
 	"fmt"
 	"math"
+	"runtime"
 	"strings"
+	"sync"
 
 	dbm "github.com/tendermint/tm-db"
 
@@ -429,4 +431,81 @@ func meterStr(m stypes.GasMeter) string {
 		return "none"
 	}
 	return fmt.Sprintf("consumed %d limit %d", m.GasConsumed(), m.Limit())
+}
+
+// ---- tracekv used by several goroutines at once (each on its own store and its own writer) ------------------------
+
+type yieldingWriter struct {
+	buf bytes.Buffer
+}
+
+// Write lets other goroutines run before it consumes the bytes it was handed (a slow or contended log sink).
+func (y *yieldingWriter) Write(p []byte) (int, error) {
+	runtime.Gosched()
+	return y.buf.Write(p)
+}
+
+// RunTraceConcurrent: G goroutines trace their own stores into their own writers at the same time. Each writer must end
+// up holding exactly its goroutine's operations, one well-formed record per operation, in order.
+func RunTraceConcurrent(seed uint64, rep Reporter) {
+	r := sim.NewRand(seed)
+	g := 2 + r.Intn(7)
+	n := 20 + r.Intn(60)
+	ws := make([]*yieldingWriter, g)
+	var wg sync.WaitGroup
+	for i := 0; i < g; i++ {
+		ws[i] = &yieldingWriter{}
+		wg.Add(1)
+		go func(i int) {
+			defer wg.Done()
+			st := tracekv.NewStore(dbadapter.Store{DB: dbm.NewMemDB()}, ws[i], stypes.TraceContext(map[string]interface{}{"g": i}))
+			for k := 0; k < n; k++ {
+				key := []byte(fmt.Sprintf("g%d/k%03d", i, k))
+				st.Set(key, []byte(fmt.Sprintf("v%d.%d", i, k)))
+				if k%3 == 0 {
+					st.Get(key)
+				}
+			}
+		}(i)
+	}
+	wg.Wait()
+	rep.Count("c16.trace_concurrent.rounds", 1)
+	for i := 0; i < g; i++ {
+		want := 0
+		k := 0
+		for _, line := range bytes.Split(ws[i].buf.Bytes(), []byte("\n")) {
+			if len(line) == 0 {
+				continue
+			}
+			var rec struct {
+				Operation string                 `json:"operation"`
+				Key       string                 `json:"key"`
+				Value     string                 `json:"value"`
+				Metadata  map[string]interface{} `json:"metadata"`
+			}
+			if json.Unmarshal(line, &rec) != nil {
+				rep.Violate("C16", "trace-concurrent/torn-record", fmt.Sprintf("goroutine %d of %d: trace line %q is not a record", i, g, line))
+				return
+			}
+			key, _ := base64.StdEncoding.DecodeString(rec.Key)
+			if rec.Operation == "write" {
+				exp := fmt.Sprintf("g%d/k%03d", i, k)
+				val, _ := base64.StdEncoding.DecodeString(rec.Value)
+				if string(key) != exp || string(val) != fmt.Sprintf("v%d.%d", i, k) || fmt.Sprint(rec.Metadata["g"]) != fmt.Sprint(i) {
+					rep.Violate("C16", "trace-concurrent/foreign-or-misordered-record", fmt.Sprintf("goroutine %d of %d: write record #%d is %s=%s (metadata %v), its own operation was %s", i, g, k, key, val, rec.Metadata, exp))
+					return
+				}
+				k++
+			} else if !strings.HasPrefix(string(key), fmt.Sprintf("g%d/", i)) {
+				rep.Violate("C16", "trace-concurrent/foreign-or-misordered-record", fmt.Sprintf("goroutine %d of %d: %s record of key %s belongs to another goroutine's store", i, g, rec.Operation, key))
+				return
+			}
+			want++
+		}
+		if k != n {
+			rep.Violate("C16", "trace-concurrent/missing-records", fmt.Sprintf("goroutine %d of %d: %d write records for %d writes", i, g, k, n))
+			return
+		}
+		rep.Count("c16.trace_concurrent.records", int64(want))
+	}
 }
